@@ -68,6 +68,20 @@ def cases(ctx):
                 records = {"1": sparse[kinds[0]](1), "2": sparse[kinds[1]](2), "3": sparse[kinds[0]](3)}
                 yield {"version": version, "steps": [["load", records], *histories.rx_steps(list(lines))]}
     ctx.exhaustive["sparse-restore-cases"] = count
+    # full type tables and scale (nothing in the statement is limited to a few type numbers or a few nodes)
+    count = 0
+    for version in [None, *VERSIONS]:
+        sweeps = [histories.presentation_type_sweep([*range(0, 40), 99, -1]),
+                  histories.wide_unknown_nodes(ctx.pick(40, 250)),
+                  histories.wide_unknown_nodes(17)]
+        child_types = list(range(0, 40))
+        for start in range(0, 40, 8):
+            sweeps.append(histories.type_table_sweep(child_types[start:start + 8], list(range(0, 57))))
+        for steps in sweeps:
+            if ctx.mine():
+                count += 1
+                yield {"version": version, "steps": steps}
+    ctx.exhaustive["type-table-and-scale-cases"] = count
     for i in range(ctx.pick(600, 24000) // ctx.shard_count):
         version = [None, *VERSIONS][i % 6]
         gen = histories.HistoryGen(rng, version)
